@@ -78,6 +78,21 @@ class Ctx:
         r = s.check()
         return r != z3.unsat      # unknown counts as feasible (sound)
 
+    def choose(self) -> bool:
+        """free nondeterministic boolean choice (contract stubs that may return any of several values):
+        always forks, no solver call"""
+        self.n_fresh += 1
+        cond = z3.Bool(f"choice!{self.n_fresh}")
+        k = len(self.decisions)
+        if k < len(self.prefix):
+            val = self.prefix[k]
+        else:
+            val = True
+            self.alternatives.append(self.decisions + [False])
+        self.decisions.append(val)
+        self.pc.append(cond if val else z3.Not(cond))
+        return val
+
     def decide(self, cond: z3.BoolRef) -> bool:
         cond = z3.simplify(cond)
         if z3.is_true(cond):
